@@ -5,7 +5,7 @@
 set -u
 P=$(readlink -f "$1"); shift
 cd /repo && git apply "$P" || { echo "patch does not apply"; exit 3; }
-trap 'git -C /repo checkout -- . ; git -C /repo clean -fdq -- air crates avm 2>/dev/null' EXIT
+trap 'git -C /repo checkout -- . ; git -C /repo clean -fdq -- air crates avm 2>/dev/null; cd /verif/harness && cargo build --release 2>&1 | grep -E "^error" -A8 | head -20' EXIT
 cd /verif/harness && cargo build --release 2>&1 | grep -E "^error" -A8 | head -20
 rm -rf /tmp/verif-try; mkdir -p /tmp/verif-try
 for id in "$@"; do
